@@ -297,6 +297,13 @@ class WebSocket:
         # NOTE(kgriffs): Only do this after we validate the code, to avoid
         #   masking errors.
         if self.closed:
+            if self._state != _WebSocketState.CLOSED:
+                # NOTE: The client has already disconnected (as observed by
+                #   the receive pump, which was stopped above). Record it, so
+                #   that subsequent operations raise WebSocketDisconnected.
+                self._state = _WebSocketState.CLOSED
+                self._close_code = self._buffered_receiver.client_disconnected_code
+
             return
 
         response = {'type': EventType.WS_CLOSE, 'code': code}
